@@ -1,6 +1,6 @@
 /-
   MinkModel.Pipeline — the pass pipeline of idlc/src/main.rs:129-160 (`cli`) and of
-  idlc/src/lib.rs:15-40 (`lib`, which has no interface verifier), and the backend fatal
+  idlc/src/lib.rs:15-40 (`lib`; the interface verifier was added there by the fix commit), and the backend fatal
   paths of counts.rs.
 -/
 import MinkModel.Fs
@@ -33,11 +33,13 @@ def backendOk (mir : List MNode) : Bool :=
     | .iface i => i.flatFuncs.all (fun of => backendOkFunc of.2)
     | _ => true
 
-def compile (entry : Entry) (fs : FsModel) (incdirs : List Nat) (main : Nat) : Except Stage Compiled :=
+/-- `ub` = `--allow-undefined-behavior`; the library entry point always passes `false` (lib.rs:22) -/
+def compile (entry : Entry) (fs : FsModel) (incdirs : List Nat) (main : Nat) (ub : Bool := false) : Except Stage Compiled :=
+  let ub := match entry with | .cli => ub | .lib => false
   let sp := match entry with
     | .cli => incdirs ++ [fs.dir main]       -- main.rs:127-128
     | .lib => incdirs                        -- lib.rs passes the caller's list unchanged
-  match loadAll fs sp main with
+  match loadAll fs ub sp main with
   | .error e => .error e
   | .ok (st, f) =>
     match functionsPass f.nodes with
@@ -53,11 +55,8 @@ def compile (entry : Entry) (fs : FsModel) (incdirs : List Nat) (main : Nat) : E
           match parseToMir st.symbols fuel f.nodes with
           | .error e => .error e
           | .ok mir =>
-            let verified : Except Stage Unit :=
-              match entry with
-              | .cli => interfaceVerifier mir
-              | .lib => .ok ()
-            match verified with
+            -- main.rs:158 and lib.rs (both entry points run the interface verifier)
+            match interfaceVerifier mir with
             | .error e => .error e
             | .ok () =>
               if backendOk mir then .ok ⟨st, f, order, sizes, mir⟩ else .error .backend
